@@ -39,7 +39,7 @@ class EventScript:
         for i in range(self.n):
             tag = 'ev%d' % i
             alts = [(self.k[i] == K['Start'], _SymStart('Start', self, i)), (self.k[i] == K['Empty'], _SymStart('Empty', self, i)),
-                    (self.k[i] == K['End'], X.ev_end()),
+                    (self.k[i] == K['End'], X.ev_end(self.name[i])),
                     (self.k[i] == K['Text'], X.ev_text(z3.String('txt%d' % i), self.text_u8[i], tag)), (self.k[i] == K['CData'], X.ev_cdata(z3.String('txt%d' % i), self.text_u8[i], tag)),
                     (self.k[i] == K['Comment'], X.ev_noise('Comment')), (self.k[i] == K['Decl'], X.ev_noise('Decl')), (self.k[i] == K['PI'], X.ev_noise('PI')),
                     (self.k[i] == K['DocType'], X.ev_noise('DocType')), (True, X.ev_err(tag))]
